@@ -353,6 +353,28 @@ def run_C08(ctx):
                 g.append(pieces_case(fam, mode, bs, w, key, iv, data, comp, op))
             groups.append(g)
             allc += g
+    # pieces whose whole-block part is exactly 64 / 128 / 256 / 512 blocks (or one off), ending on a block boundary or not, followed by
+    # more data: look-ahead buffers and batch loops with a fixed batch size show at their batch boundaries
+    for mode in STREAM_MODES + ["cfbbuf-enc", "cfbbuf-dec"]:
+        fam = "buf" if mode.startswith("cfbbuf") else "stream"
+        op = "data" if fam == "buf" else "apply"
+        for _ in range(ctx.n(4, 40)):
+            bs, w = small_matrix(rng, mode if fam == "stream" else "cbc-enc", 16)
+            key = rb(rng, 16)
+            iv = stream_iv(rng, mode, bs, key)[0] if fam == "stream" else rb(rng, bs)
+            nb = rng.choice([64, 128, 128, 256, 512]) * rng.choice([1, 1, 2]) + rng.choice([-1, 0, 0, 0, 1])
+            head = rng.choice([0, 0, rng.randrange(0, bs)])
+            tail = rng.choice([0, 0, rng.randrange(0, bs)])
+            after = rng.randrange(1, 2 * bs + 2)
+            big = (bs - head) % bs + nb * bs + tail if head else nb * bs + tail
+            L = head + big + after
+            data = rb(rng, L)
+            g = [Case(fam, mode, bs, w, key, iv, ops=[f"{op} {hx(data)}"], role="whole", cls_long=str(nb))]
+            comp = [k for k in (head, big, after) if True]
+            g.append(pieces_case(fam, mode, bs, w, key, iv, data, comp, op))
+            g.append(pieces_case(fam, mode, bs, w, key, iv, data, [head + big, after], op))
+            groups.append(g)
+            allc += g
     # prefix preservation of the one-shot CFB / CFB-8 (CFB-8: the mode's blocks are bytes, so a backend wider than the
     # cipher's block size in bytes is a configuration of its own)
     pref = []
